@@ -5,7 +5,6 @@ import (
 	"sort"
 
 	"fmt"
-	"gopkg.in/typ.v4/avl"
 	"time"
 
 	"verif/lib/avlh"
@@ -52,38 +51,45 @@ func main() {
 	// orders, against the sorted-multiset model after every call (Len, in-order slice, Contains,
 	// Remove results incl. absent values); Clone at several sizes.
 	famCalls := 0
-	for _, mod := range []int{1000003, 7, 1} {
-		for _, ins := range []string{"asc", "desc", "scramble"} {
-			for _, del := range []string{"asc", "desc", "scramble"} {
-				if msg := family(ev.Pick(r, 260, 700), mod, ins, del, &famCalls); msg != "" {
-					r.Report(ev.Violation{Sig: "family|contents", Msg: msg, Replay: map[string]any{"family": ins + "/" + del, "mod": mod}})
+	// every family runs twice: on avl.NewOrdered and on avl.New with a comparator that answers with
+	// differences (any negative / positive number, not only -1 / +1)
+	for _, kind := range []string{"NewOrdered", "difference-comparator"} {
+		if kind != "NewOrdered" {
+			avlh.NewTree = avlh.Magnitude
+		}
+		for _, mod := range []int{1000003, 7, 1} {
+			for _, ins := range []string{"asc", "desc", "scramble"} {
+				for _, del := range []string{"asc", "desc", "scramble"} {
+					if msg := family(ev.Pick(r, 260, 700), mod, ins, del, &famCalls); msg != "" {
+						r.Report(ev.Violation{Sig: "family|contents", Msg: "(" + kind + " tree) " + msg, Replay: map[string]any{"family": ins + "/" + del, "mod": mod, "tree": kind}})
+					}
 				}
 			}
 		}
-	}
-	r.Set("large_size_family_calls", famCalls)
-	// build-then-remove families: every size up to the bound, 7 build orders, every single
-	// removal (and every ordered pair of removals for the smaller sizes), checked after each
-	{
-		var tr func(any)
-		if ev.Tracing() {
-			tr = ev.Trace
+		r.Set("large_size_family_calls", famCalls)
+		// build-then-remove families: every size up to the bound, 7 build orders, every single
+		// removal (and every ordered pair of removals for the smaller sizes), checked after each
+		{
+			var tr func(any)
+			if ev.Tracing() {
+				tr = ev.Trace
+			}
+			cases, msg, rp := avlh.RemovalFamilies(ev.Pick(r, 96, 300), ev.Pick(r, 30, 60), false, tr)
+			if msg != "" {
+				r.Report(ev.Violation{Sig: "family|contents", Msg: "(" + kind + " tree) " + msg, Replay: rp})
+			}
+			r.Set("removal_family_cases", cases)
 		}
-		cases, msg, rp := avlh.RemovalFamilies(ev.Pick(r, 96, 300), ev.Pick(r, 30, 60), false, tr)
-		if msg != "" {
-			r.Report(ev.Violation{Sig: "family|contents", Msg: msg, Replay: rp})
-		}
-		r.Set("removal_family_cases", cases)
-	}
-	// long-history churn: one tree, tens of thousands of operations (behaviour keyed to a count of
-	// operations), with and without duplicates
-	for _, dups := range []bool{false, true} {
-		var tr func(any)
-		if ev.Tracing() {
-			tr = ev.Trace
-		}
-		if msg, rp := avlh.Churn(ev.Pick(r, 60000, 600000), 97, dups, false, tr); msg != "" {
-			r.Report(ev.Violation{Sig: "family|churn", Msg: msg, Replay: rp})
+		// long-history churn: one tree, tens of thousands of operations (behaviour keyed to a count of
+		// operations), with and without duplicates
+		for _, dups := range []bool{false, true} {
+			var tr func(any)
+			if ev.Tracing() {
+				tr = ev.Trace
+			}
+			if msg, rp := avlh.Churn(ev.Pick(r, 60000, 600000), 97, dups, false, tr); msg != "" {
+				r.Report(ev.Violation{Sig: "family|churn", Msg: "(" + kind + " tree) " + msg, Replay: rp})
+			}
 		}
 	}
 	r.Set("churn_family_operations", 2*ev.Pick(r, 60000, 600000))
@@ -93,7 +99,7 @@ func main() {
 	r.Set("max_depth", depth)
 	r.Set("configs", parts)
 	r.Set("rule", "explicit-state BFS to fixpoint over the real avl.Tree; state = fingerprint of the complete concrete tree; alphabet Add(v), Remove(v) incl. absent values below/inside/above the universe, Clear, Clone (search continues on the clone); after every transition every public observer is compared with a sorted-multiset model PLUS deterministic families beyond the exhaustive bound (large sizes, every single/double removal from trees built in 7 orders, long one-instance churn histories): see the *_family_* counters")
-	r.Assume("comparators are total orders consistent with ==; universe and size bound as listed in configs")
+	r.Assume("comparators are total orders consistent with == (the struct configuration and the second pass of every family use comparators whose results are multiples of the difference, not -1/0/+1); universe and size bound as listed in configs")
 	r.Finish()
 }
 
@@ -114,7 +120,7 @@ func order(kind string, n int) []int {
 
 // family drives one large tree; values are i % mod (duplicates when mod is small).
 func family(n, mod int, ins, del string, calls *int) string {
-	t := avl.NewOrdered[int]()
+	t := avlh.NewTree()
 	var model []int // sorted
 	check := func(what string) string {
 		*calls++
